@@ -33,7 +33,10 @@ def run(c):
     binary = c.go_build(HARNESS)
     if binary:
         gen(c, binary)
-    c.prove("SH.Props.C09", extra_files=["SH/Model/DiskCache.lean"])
+    lem = ["Abs", "Inv", "Read", "Read2", "Read3", "Loop", "Drain", "Get", "Erase", "Erase2", "Erase3", "Drop", "Rotate", "NewFile",
+           "Append", "Run", "GetLive", "Sizes", "Torn"]
+    c.prove("SH.Props.C09", extra_files=["SH/Model/DiskCache.lean"] + [f"SH/Lemmas/DiskCache{x}.lean" for x in lem])
+    c.prove("SH.Lemmas.DiskCacheBytes")          # first-round byte-level theorems, still audited one by one
     drv = c.driver(DRIVER)
     if binary and drv:
         rc, out = c.go_run(binary, [f"-n={c.n(200, 1500)}"])
@@ -64,21 +67,19 @@ META = {
     "technique": ("Lean 4 theorems over an executable model of disk_cache.go (byte-level record format and scan, state machine with ref "
                   "counts) + op-by-op white-box differential correspondence with the real DiskBucketStorage on real files + direct "
                   "op-log oracle, tear offsets enumerated"),
-    "text": ("Kernel-checked, for every record list / byte prefix / tear offset: the header written by writeSecond is read back field "
-             "for field; one iteration of the ReadNextTailSecond loop at a record boundary skips an erased record and hands out a good "
-             "one with exactly the written time/size/crc; a file of records is scanned to exactly its non-erased records in write "
-             "order; cutting the last record at ANY byte loses that record only; eraseBucket changes exactly one record; GetBucket "
-             "returns bytes only under the time/length/crc checks; the stateful model loop hands out the first element of that scan. "
-             "The model (incl. ref counts, cursors, total/unsent, file removal, rotation) is tied to the code by replaying every "
-             "generated history op by op on a real cache directory and on the compiled model and diffing ids, bytes, sizes, ref counts "
-             "and a checksum of every file; the oracle recomputes puts - erases - torn from the op log and compares with what the "
-             "reopened real cache returns, TotalFileSize with the directory, and the set of files with the live seconds."),
-    "note": ("PARTIAL: the history-level theorems (reread_after_restart / torn_tail over op lists with several files, size_accounting, "
-             "file_removed) are not proved in Lean - the per-file and per-op facts are; the history level rests on the correspondence "
-             "and the oracle. crc32c is a parameter (detection reduced to the crc distinguishing byte strings). Assumed: prefix-"
-             "preserving file system, increasing file names, no I/O errors; flock not modelled; size rotation tied at predicate level "
-             "(real 50 MB files, mode=big). Finding: an erase torn after 3 bytes makes the reader drop the later seconds of the file "
-             "(sig torn-erase-drops-later-seconds, theorem torn_erase3_loses_later_second, fix proposed in fixes/C09-torn-erase.diff; "
-             "the model follows the tree under test through the regenerated fact Gen.C09.tornEraseAccepted)."),
+    "text": ("Kernel-checked for EVERY history (List Op of put/get/erase/readNext/restart, any number of files and rotations): the "
+             "model state satisfies a refinement invariant (files = encoded record lists, known buckets <-> records with ids, ref "
+             "counts, cursors, sizes) and its live sequence equals the history-level spec (put appends, erase removes); hence "
+             "reread_after_restart (restart + drain returns exactly the put-and-not-erased seconds in write order with identical "
+             "bytes, readFuel always suffices), torn_tail (last put torn at ANY byte loses only that put), erased_never_returned, "
+             "size_accounting (total = sum of file sizes, knownSize/waitingSize/unsent), file_removed (a file stays only while a "
+             "known second or a head refers to it). Byte-level theorems of round one unchanged. The model is tied to the code by "
+             "replaying every generated history op by op on a real cache directory and on the compiled model and diffing ids, "
+             "bytes, sizes, ref counts and a checksum of every file; the oracle recomputes puts - erases - torn from the op log."),
+    "note": ("PARTIAL: the torn-ERASE statement at history level (erase torn after 0..4 bytes never loses another second, fixed reader) "
+             "is proved only per loop iteration, not lifted to histories. crc32c is a parameter (< 2^32; detection reduced to the crc "
+             "distinguishing byte strings). Assumed: prefix-preserving file system, increasing file names, no I/O errors; flock not "
+             "modelled; size rotation tied at predicate level (real 50 MB files, mode=big). The model follows the tree under test "
+             "through the regenerated fact Gen.C09.tornEraseAccepted (true since fix b1b680d2)."),
     "design_ref": "DESIGN.md §6 C09",
 }
